@@ -101,6 +101,9 @@ type PeerSpec struct {
 	Stall string `json:"stall,omitempty"`
 	// SocksAuth: the SOCKS5 server demands username/password when offered.
 	BadWSReply bool `json:"bad_ws_reply,omitempty"`
+	// BadExtReply: a 101 that is valid except that it announces
+	// permessage-deflate without the no_context_takeover parameters.
+	BadExtReply bool `json:"bad_ext_reply,omitempty"`
 }
 
 // PeerLog is what the peer observed.
@@ -378,6 +381,9 @@ func runPeer(raw net.Conn, spec PeerSpec, log *PeerLog) {
 		return
 	}
 	resp := "HTTP/1.1 101 Switching Protocols\r\nUpgrade: websocket\r\nConnection: Upgrade\r\nSec-WebSocket-Accept: " + wsref.AcceptKey(req.Header.Get("Sec-Websocket-Key")) + "\r\n\r\n"
+	if spec.BadExtReply {
+		resp = strings.TrimSuffix(resp, "\r\n") + "Sec-WebSocket-Extensions: permessage-deflate; server_no_context_takeover\r\n\r\n"
+	}
 	if _, err := c.Write([]byte(resp)); err != nil {
 		return
 	}
